@@ -32,6 +32,18 @@ def load_specs():
         d = os.path.dirname(mp)
         specs.append({"id": "seed:" + os.path.basename(d), "property": [meta["breaks_property"]], "kind": "mutant",
                       "patch": os.path.join(d, "patch.diff"), "silent": meta.get("silent", [])})
+    # independently written behaviour-preserving refactorings kept under refactors/: the checks of the properties they
+    # were written for (and of any property whose check once raised an alarm on them) must stay silent
+    for mp in sorted(glob.glob(os.path.join(facts_mod.VERIF, "refactors", "*", "meta.json"))):
+        try:
+            meta = json.load(open(mp))
+        except Exception:
+            continue
+        if meta.get("verdict") not in ("silent", "fixed"):
+            continue      # pending triage, or judged not behaviour-preserving after all
+        d = os.path.dirname(mp)
+        props = sorted(set(meta.get("written_for", [])) | set(meta.get("alarms_at_intake", {}) or {}))
+        specs.append({"id": "refactor:" + os.path.basename(d), "property": props, "kind": "refactor", "patch": os.path.join(d, "patch.diff")})
     return specs
 
 
